@@ -9,6 +9,7 @@ package stablemap
 //
 //@ func Map.Len
 //@   requires !isnil(m)
+//@   ensures result >= 0
 //@   ensures isnil(m.nodes) ==> result == 0
 //@   ensures !isnil(m.nodes) ==> result == len(m.nodes)
 //@   modifies nothing
